@@ -24,8 +24,15 @@ Fixpoint mapM {A B} (f : A -> option B) (l : list A) : option (list B) :=
 
 Definition dec_field (v : val) : option field :=
   match v with
-  | VTup [VStr n; VInt t; VBool b] => Some (mkField n t b)
+  | VTup [VStr n; VInt t; VBool b] => Some (mkField 0 n t b)
   | _ => None
+  end.
+
+(* FieldIdGenerator.bind_schema: consecutive ids *)
+Fixpoint bind_from (i : N) (s : schema) : schema :=
+  match s with
+  | [] => []
+  | f :: s' => mkField i (fname f) (ftype f) (fnullable f) :: bind_from (N.succ i) s'
   end.
 
 Definition dec_row (ns : list name) (v : val) : option row :=
@@ -41,7 +48,9 @@ Definition dec_table (v : val) : option table :=
   match v with
   | VTup [VList fs; VList ps] =>
       match mapM dec_field fs with
-      | Some s => match mapM (dec_part (names_of s)) ps with Some parts => Some (s, parts) | None => None end
+      | Some s0 =>
+          let s := bind_from 1 s0 in
+          match mapM (dec_part (names_of s)) ps with Some parts => Some (s, parts) | None => None end
       | None => None
       end
   | _ => None
